@@ -367,6 +367,10 @@ func checkC22(c *Ctx) *report.Result {
 		}
 		r.Ob("J-owner", len(ws) == 1 && ws[0] == want, "writers of controller"+path, "", fmt.Sprintf("stored by %v; documented owner %s", ws, want))
 	}
+	r.Rule("J-own", "the select and key bytes a controller reports are its own: nothing in package controller that New or the run phase writes is package-level (rule G2 of C25 restricted to package controller)")
+	adopt(r, c.sibling("C25"), map[string]string{"G2": "J-own"}, "a controller shared between machines reports another machine's held keys and select bits", func(f report.Finding) bool {
+		return strings.Contains(f.Construct, "controller.") || strings.Contains(f.Where, "gameboy/controller/")
+	})
 	r.Rule("J-cpu", "the select bits are whatever the program wrote last: every CPU row performs exactly its documented memory writes (S-cpu of C23 re-stated), so no instruction writes FF00 behind the program's back")
 	adopt(r, c.sibling("C23"), map[string]string{"S-cpu": "J-cpu"}, "an instruction that writes to memory on its own account can overwrite the select bits the program wrote")
 	return r
